@@ -220,3 +220,103 @@ class LenRewriter(ast.NodeTransformer):
         if isinstance(node.func, ast.Name) and node.func.id == "len" and len(node.args) == 1 and not node.keywords:
             node.func = ast.Name("__d3vc_len__", ast.Load())
         return node
+
+
+# ---------------------------------------------------------------------------------------------- compound conditions
+class CompoundConditionRewriter(ast.NodeTransformer):
+    """`if a <= b <= c and d > e:` is decided as ONE condition instead of one fork per comparison, when every operand is a pure
+    arithmetic expression over local names and constants (no call, subscript, attribute or division, so eager evaluation cannot
+    raise or have a side effect and Python's short-circuit order is unobservable).  Fewer paths, and the negation stays a
+    disjunction, which is how the geometric region tests are meant to be read."""
+
+    def _pure(self, e):
+        if isinstance(e, ast.Constant):
+            return isinstance(e.value, (int, float, bool))
+        if isinstance(e, ast.Name):
+            return True
+        if isinstance(e, ast.UnaryOp) and isinstance(e.op, (ast.USub, ast.UAdd)):
+            return self._pure(e.operand)
+        if isinstance(e, ast.BinOp) and isinstance(e.op, (ast.Add, ast.Sub, ast.Mult)):
+            return self._pure(e.left) and self._pure(e.right)
+        return False
+
+    def _safe(self, t):
+        if isinstance(t, ast.Compare):
+            return all(isinstance(o, (ast.Lt, ast.LtE, ast.Gt, ast.GtE)) for o in t.ops) and self._pure(t.left) and all(self._pure(c) for c in t.comparators)
+        if isinstance(t, ast.BoolOp):
+            return all(self._safe(v) for v in t.values)
+        if isinstance(t, ast.UnaryOp) and isinstance(t.op, ast.Not):
+            return self._safe(t.operand)
+        return False
+
+    def _build(self, t):
+        if isinstance(t, ast.Compare):
+            parts = []
+            left = t.left
+            for op, right in zip(t.ops, t.comparators):
+                parts.append(ast.Compare(left, [op], [right]))
+                left = right
+            if len(parts) == 1:
+                return parts[0]
+            return ast.Call(ast.Name("__d3vc_and__", ast.Load()), parts, [])
+        if isinstance(t, ast.BoolOp):
+            fn = "__d3vc_and__" if isinstance(t.op, ast.And) else "__d3vc_or__"
+            return ast.Call(ast.Name(fn, ast.Load()), [self._build(v) for v in t.values], [])
+        if isinstance(t, ast.UnaryOp):
+            return ast.Call(ast.Name("__d3vc_not__", ast.Load()), [self._build(t.operand)], [])
+        return t
+
+    def _rewrite_test(self, test):
+        if isinstance(test, (ast.BoolOp,)) or (isinstance(test, ast.Compare) and len(test.ops) > 1) or \
+                (isinstance(test, ast.UnaryOp) and isinstance(test.op, ast.Not) and isinstance(test.operand, ast.BoolOp)):
+            if self._safe(test):
+                return self._build(test)
+        return test
+
+    def visit_If(self, node):
+        self.generic_visit(node)
+        node.test = self._rewrite_test(node.test)
+        return node
+
+    def visit_Assert(self, node):
+        self.generic_visit(node)
+        node.test = self._rewrite_test(node.test)
+        return node
+
+
+def d3vc_and(*xs):
+    ts = []
+    for x in xs:
+        if isinstance(x, (bool, np.bool_)):
+            if not x:
+                return False
+            continue
+        ts.append(x)
+    if not ts:
+        return True
+    r = ts[0]
+    for t in ts[1:]:
+        r = r & t
+    return r
+
+
+def d3vc_or(*xs):
+    ts = []
+    for x in xs:
+        if isinstance(x, (bool, np.bool_)):
+            if x:
+                return True
+            continue
+        ts.append(x)
+    if not ts:
+        return False
+    r = ts[0]
+    for t in ts[1:]:
+        r = r | t
+    return r
+
+
+def d3vc_not(x):
+    if isinstance(x, (bool, np.bool_)):
+        return not x
+    return ~x
